@@ -119,14 +119,17 @@ CHECKS["C18"] = dict(
           "total order: construct_eq_kept/dual_face_count (one dual face per node of valence>=3, in node order: the `correction` "
           "bookkeeping), order_is_sort/ring_of_monotone_keys (the selection loop returns the first entry, the others sorted by key, "
           "then padding, for lists of any length), dual_rows_are_node_faces/model_meets_discrete_spec (rows are exactly the node's "
-          "faces, padding at the end), side_sign_ccw/side_tproj/tri_tproj/tproj_orth (side test = sign of -c.(t0 x d), unchanged by "
+          "faces wherever the padding of the node_face row sits, padding at the end of the dual row; gather_asis_eq_of_endPadded / "
+          "asis_prefix_gather_drops_face witness the prefix gather fixed by b97cc1ce), side_sign_ccw/side_tproj/tri_tproj/tproj_orth (side test = sign of -c.(t0 x d), unchanged by "
           "the tangent projection), kept_all_of_closed/dual_row_of_node/dual_data_identity/dual_dims_swap (closed grids: dual face k "
           "is node k, data untouched, dims swapped). asis_chord_angle_misorders/asis_order_wrong_ring keep the snapshot's defect "
           "(chord angle instead of tangent-plane angle, fixed by c1960934) as an exact regression witness over the reals. "
           "TESTED ONLY (Lean driver evaluates on the implementation's output, differential run): ring clause (consecutive corners "
           "share an edge at the node, C03 incidence model), counter-clockwise clause (polynomial sign tests, no arccos), both "
           "judged where the face centres are angularly ordered like the face ring; exact table = Float model; dual node = face "
-          "centre; UxDataArray.get_dual dims/values/grid; interpreted vs JIT."),
+          "centre; UxDataArray.get_dual dims/values/grid; interpreted vs JIT; chains get_dual->get_dual->get_dual on irregular partial and closed "
+          "meshes, each grid judged against its own parent (the parent's node_face checked against C03's Lean transpose); source-supplied "
+          "node_face_connectivity with padding anywhere."),
     note=_TB + "Modelled, not verified: that face centres around a node are angularly ordered like the face ring (mesh geometry), IEEE "
          "rounding / libm arccos, numba compilation, from_topology/xarray storage, face centres themselves (C04). UxDataset.get_dual "
          "cannot run under the installed xarray.",
@@ -374,7 +377,9 @@ CHECKS["C10"] = dict(
          "Grid.__eq__, store sharing via np.shares_memory, the element counts of grids built by Grid.isel/get_dual (enter as operation "
          "parameters). The UxDataset half of the anchors (core/dataset.py) cannot be exercised: the installed xarray rejects Dataset(Dataset). "
          "uxarray's own ops are generated only where the model defines them (one grid dimension, last; no coordinate along it; not on "
-         "sub-grids) - raises outside that domain are counted, not judged.",
+         "for integrate/gradient/difference/aggregation/remap/get_dual) - raises outside that domain are counted, not judged. Grid-dimension isel / "
+         "subset are generated in ANY layout and on sub-grids too (2-3 selections in a row with arbitrary ops between), judged against plain "
+         "xarray isel by name at geometrically identified indices; grids of a run are in a reproducible warm/cold state recorded in the replay.",
     technique="Lean 4 invariant theorem over an operation algebra with an observed constructor-path table + differential correspondence with Lean-evaluated step spec",
 )
 
